@@ -291,6 +291,14 @@ STRUCTURAL = [
     ("group:residue-range-huge", "colvar {\n  name s\n  alpha {\n    residueRange 1-2147483647\n    psfSegID MAIN\n  }\n}\n", "reject"),
     ("group:residue-range-huge-dihedpc", "colvar {\n  name s\n  dihedralPC {\n    residueRange 1-2147483647\n    psfSegID MAIN\n    vector 1 1 1 1\n  }\n}\n", "reject"),
     ("group:residue-range-reversed", "colvar {\n  name s\n  alpha {\n    residueRange 9-1\n    psfSegID MAIN\n  }\n}\n", "reject"),
+    ("walkers:abf-integrate-off-shared", _ABFK("integrate off\n  shared on\n  outputFreq 2"), None),
+    ("alloc:runAveLength-2^62", cv("x", 1, "  runAve on\n  runAveLength 4611686018427387904\n  runAveStride 1\n"), "accept"),
+    ("alloc:abf-historyFreq-2^62", _ABFK("outputFreq 2\n  historyFreq 4611686018427387904"), "accept"),
+    ("alloc:meta-hillWidth-tiny", _METAK("hillWidth 1e-300").replace("  hillWidth 2\n", ""), "accept"),
+    ("alloc:meta-grid-tiny-width", cv("x", 1, "  width 1e-9\n  lowerBoundary 0\n  upperBoundary 4\n") + "metadynamics {\n  name m\n  colvars x\n  hillWeight 0.1\n  hillWidth 2\n  newHillFrequency 2\n}\n", "reject"),
+    ("alloc:abf-grid-1e9-bins", cv("x", 1, "  width 1\n  lowerBoundary 0\n  upperBoundary 1000000000\n", "    oneSiteTotalForce on\n") + "abf {\n  name a\n  colvars x\n  fullSamples 2\n}\n", "reject"),
+    ("alloc:histogram-gather-tiny-width", "colvar {\n  name d\n  distancePairs {\n    group1 { atomNumbers 1 2 }\n    group2 { atomNumbers 3 4 }\n  }\n}\nhistogram {\n  name h\n  colvars d\n  gatherVectorColvars on\n  histogramGrid {\n    width 1e-9\n    lowerBoundary 0\n    upperBoundary 8\n  }\n}\n", "reject"),
+    ("alloc:histogram-gather-weights-length", "colvar {\n  name d\n  distancePairs {\n    group1 { atomNumbers 1 2 }\n    group2 { atomNumbers 3 4 }\n  }\n}\nhistogram {\n  name h\n  colvars d\n  gatherVectorColvars on\n  weights 1 1\n  histogramGrid {\n    width 1\n    lowerBoundary 0\n    upperBoundary 8\n  }\n}\n", "reject"),
     ("group:hbond-valid", "colvar {\n  name s\n  hBond {\n    acceptor 1\n    donor 2\n  }\n}\n", "accept"),
 ]
 
@@ -420,7 +428,7 @@ def _ebmeta(vals, minval=None, expand=False):
 VALIDATE2 = (
     [_opessn(s_, False, None) for s_ in ("0.5", "0", "-1", "0.001", "1000", "x", "1 2", None)] +
     [_opessn(None, False, None, adaptive=True), _opessn("0", False, None, adaptive=True)] +
-    [_opessn("0.5", True, p) for p in (None, "3 0.5", "1 0.5", "0.5 0.5", "3 0", "3 -1", "3 0.6", "3 1.2", "3", "3 0.5 1", "9 0.8", "9 0.9", "1.5 0.3", "1.5 0.35", "x 0.5")] +
+    [_opessn("0.5", True, p) for p in (None, "3 0.5", "1 0.5", "1 0.1", "1.0001 0.1", "0.5 0.5", "3 0", "3 -1", "3 0.6", "3 1.2", "3", "3 0.5 1", "9 0.8", "9 0.9", "1.5 0.3", "1.5 0.35", "x 0.5")] +
     [_opessn("0.5", False, "3 0.5")] +
     [_rmsd(i, f) for i, f in ((3, None), (2, None), (4, None), (0, None), (None, 3), (None, 2), (None, "missing"), (None, None), (3, 3))] +
     [_ebmeta(v, m, x) for v, m, x in ((["1", "2", "3", "4"], None, False), (["0", "0", "0", "0"], None, False), (None, None, False),
